@@ -54,9 +54,14 @@ Fixpoint delete_branch (fuel : nat) (a : arena) (id : nat) : res arena :=
       | None => Panic "arena index out of bounds"
       | Some n =>
           do a1 <- (match g_child n with Some c => delete_branch f a c | None => Ok a end);
-          do a2 <- (match g_kind n with
-                    | KEmpty => Panic "next_id of Empty"
-                    | _ => match g_next n with Some nx => delete_branch f a1 nx | None => Ok a1 end
+          (* `self.node(from_id).next_id()` reads the slot again, after the child branch is gone *)
+          do a2 <- (match get a1 id with
+                    | None => Panic "arena index out of bounds"
+                    | Some n1 =>
+                        match g_kind n1 with
+                        | KEmpty => Panic "next_id of Empty"
+                        | _ => match g_next n1 with Some nx => delete_branch f a1 nx | None => Ok a1 end
+                        end
                     end);
           Ok (set_nth a2 id empty_node)
       end
@@ -75,7 +80,18 @@ Definition refresh_title (g : graph) (key : string) : graph :=
   | Some root =>
       match extract_ref_text (gr_arena g) root with
       | Some t => G (gr_arena g) (gr_keys g) (gr_maps g) (ainsert key t (gr_titles g)) (gr_meta g)
-      | None => g   (* as found: a stale title stays *)
+      | None => G (gr_arena g) (gr_keys g) (gr_maps g) (aremove key (gr_titles g)) (gr_meta g)
+      end
+  | None => g
+  end.
+
+(* as found in the pinned tree: the cache was only inserted into, a stale title stayed *)
+Definition refresh_title_as_found (g : graph) (key : string) : graph :=
+  match alookup key (gr_keys g) with
+  | Some root =>
+      match extract_ref_text (gr_arena g) root with
+      | Some t => G (gr_arena g) (gr_keys g) (gr_maps g) (ainsert key t (gr_titles g)) (gr_meta g)
+      | None => g
       end
   | None => g
   end.
